@@ -30,6 +30,7 @@ func init() {
 		p.StdPct = 30
 		p.AliasPct = 35
 		p.EmbedPct = 40
+		p.MultiRefPct = 15
 	}), Oracle: oracle.C11}
 	Props["C12"] = &PropDef{Profile: prof("C12", func(p *gen.Profile) { p.AdvNames = true; p.MaxParams = 6; p.UnnamedPct = 35; p.GenericPct = 10 }), Oracle: oracle.C12}
 	Props["C13"] = &PropDef{Profile: prof("C13", func(p *gen.Profile) { p.AdvNames = true; p.MaxParams = 5; p.UnnamedPct = 55; p.GenericPct = 8; p.MaxDepth = 4 }), Oracle: oracle.C13}
@@ -40,6 +41,7 @@ func init() {
 		p.StdPct = 35
 		p.AdvNames = true
 		p.OutFilePct = 0
+		p.MultiRefPct = 45
 	}), Oracle: oracle.C14}
 	Props["C16"] = &PropDef{Profile: prof("C16", func(p *gen.Profile) { p.OutFilePct = 0; p.MaxParams = 6 }), Mutate: c16Mutate, Oracle: oracle.C16}
 	Props["C19"] = &PropDef{Profile: prof("C19", func(p *gen.Profile) {
@@ -47,6 +49,7 @@ func init() {
 		p.MinDeps = 2
 		p.MaxDeps = 6
 		p.StdPct = 30
+		p.MultiRefPct = 15
 	}), Mutate: gen.HostileArgs, Oracle: oracle.C19}
 	Props["C20"] = &PropDef{Profile: prof("C20", func(p *gen.Profile) { p.MultiArgPct = 85; p.MaxIfaces = 4; p.OutFilePct = 0 }), Oracle: oracle.C20}
 }
